@@ -97,9 +97,13 @@ impl LocalSpan {
     {
         #[cfg(feature = "enable")]
         if let Some(LocalSpanInner { stack, span_handle }) = &self.inner {
-            // Evaluate the closure before borrowing the span stack: it may itself use the
-            // tracing API of this thread (e.g. call a `#[trace]` function or log).
-            let properties = properties();
+            // Evaluate the closure, and the iterator it returns, before borrowing the span stack:
+            // both may use the tracing API of this thread themselves (e.g. call a `#[trace]`
+            // function or log while computing a value).
+            let properties: Vec<(Cow<'static, str>, Cow<'static, str>)> = properties()
+                .into_iter()
+                .map(|(k, v)| (k.into(), v.into()))
+                .collect();
             let span_stack = &mut *stack.borrow_mut();
             span_stack.with_properties(span_handle, || properties);
         }
@@ -157,7 +161,10 @@ impl LocalSpan {
                     // if the properties are going to be recorded.
                     let is_recording = s.borrow_mut().is_recording();
                     if is_recording {
-                        let properties = properties();
+                        let properties: Vec<(Cow<'static, str>, Cow<'static, str>)> = properties()
+                            .into_iter()
+                            .map(|(k, v)| (k.into(), v.into()))
+                            .collect();
                         let span_stack = &mut s.borrow_mut();
                         span_stack.add_properties(|| properties);
                     }
